@@ -1,7 +1,8 @@
 //! C14, commands an agent sends, on the agent's side: a real agent (derived lane model, `#[lifecycle]`, AgentModel task)
 //! creates commanders in on_start and later, and sends through them and ad hoc; the harness is the runtime's end of the
 //! command channel: it resolves the messages as the runtime does (a Register binds an id to an address) and every
-//! command must be forwarded once, in order, to the lane it was meant for (real code only).
+//! command must be forwarded once, in order, to the lane it was meant for; the messages are also compared with
+//! Model/Commanders.v.
 
 use std::collections::{BTreeMap, HashMap};
 use std::sync::Arc;
@@ -151,7 +152,7 @@ impl AgentContext for Ctx {
 }
 
 /// What was forwarded to which address, as the runtime would resolve the command channel.
-async fn run_case(at_start: Vec<usize>, cmds: &[i64]) -> Result<Vec<(String, i64, bool)>, String> {
+async fn run_case(at_start: Vec<usize>, cmds: &[i64]) -> Result<(Vec<(String, i64, bool)>, Vec<String>), String> {
     let lifecycle = CLifecycle { at_start, commanders: Default::default() }.into_lifecycle();
     let model = AgentModel::new(CAgent::default, lifecycle);
     let ctx = Ctx::default();
@@ -184,10 +185,13 @@ async fn run_case(at_start: Vec<usize>, cmds: &[i64]) -> Result<Vec<(String, i64
     let mut msgs = FramedRead::new(rx, RawCommandMessageDecoder::<Text>::default());
     let mut ids: BTreeMap<u16, Address<Text>> = BTreeMap::new();
     let mut forwarded = vec![];
+    let mut raw: Vec<String> = vec![];
     let show = |a: &Address<Text>| format!("{}:{}", a.node, a.lane);
+    let index = |a: &Address<Text>| TARGETS.iter().position(|(n, l)| a.host.is_none() && a.node.as_str() == *n && a.lane.as_str() == *l).map(|i| i as u64).unwrap_or(99);
     loop {
         match msgs.next().now_or_never() {
             Some(Some(Ok(CommandMessage::Register { address, id }))) => {
+                raw.push(format!("MRegister {} {}", index(&address), id));
                 if let Some(old) = ids.insert(id, address.clone()) {
                     if old != address {
                         // (the runtime rebinds the id: what was registered first loses its address)
@@ -196,10 +200,12 @@ async fn run_case(at_start: Vec<usize>, cmds: &[i64]) -> Result<Vec<(String, i64
             }
             Some(Some(Ok(CommandMessage::Addressed { target, command, overwrite_permitted }))) => {
                 let n = std::str::from_utf8(command.as_ref()).ok().and_then(|s| s.parse::<i64>().ok()).ok_or("unreadable command body")?;
+                raw.push(format!("MAddressed {} ({})%Z {}", index(&target), n, overwrite_permitted));
                 forwarded.push((show(&target), n, overwrite_permitted));
             }
             Some(Some(Ok(CommandMessage::Registered { target, command, overwrite_permitted }))) => {
                 let n = std::str::from_utf8(command.as_ref()).ok().and_then(|s| s.parse::<i64>().ok()).ok_or("unreadable command body")?;
+                raw.push(format!("MRegistered {} ({})%Z {}", target, n, overwrite_permitted));
                 match ids.get(&target) {
                     Some(a) => forwarded.push((show(a), n, overwrite_permitted)),
                     None => return Err(format!("command {} sent through the id {} that was never registered", n, target)),
@@ -211,7 +217,7 @@ async fn run_case(at_start: Vec<usize>, cmds: &[i64]) -> Result<Vec<(String, i64
     }
     handle.abort();
     let _ = handle.await;
-    Ok(forwarded)
+    Ok((forwarded, raw))
 }
 
 fn main() {
@@ -223,6 +229,7 @@ fn main() {
     let mut failures: Vec<String> = vec![];
     let mut nontrivial = 0u64;
     let mut total = 0u64;
+    let mut w = CaseWriter::new("From SwimV Require Import Model.Commanders.\nOpen Scope N_scope.", "ccase", &["cmd_corr_bad", "cmd_oracle_bad"], args.shards);
     let mut cases: Vec<(Vec<usize>, Vec<i64>)> = vec![
         // a commander from on_start, another created later, then the first one again
         (vec![0], vec![4, 4 + 1, 16 + 4]),
@@ -246,7 +253,23 @@ fn main() {
         total += 1;
         let expected: Vec<(String, i64, bool)> = cmds.iter().map(|n| (format!("{}:{}", TARGETS[target_of(*n)].0, TARGETS[target_of(*n)].1), *n, way_of(*n) != 1)).collect();
         match catch(std::panic::AssertUnwindSafe(|| rt.block_on(run_case(at_start.clone(), cmds)))) {
-            Ok(Ok(got)) => {
+            Ok(Ok((got, raw))) => {
+                // the same history for the model: which handles the lifecycle holds decides whether it creates first
+                let mut held: Vec<usize> = at_start.clone();
+                let mut ops: Vec<String> = at_start.iter().map(|t| format!("ACreate {}", t)).collect();
+                for n in cmds {
+                    let t = target_of(*n);
+                    if way_of(*n) == 0 {
+                        ops.push(format!("AAdHoc {} ({})%Z", t, n));
+                    } else {
+                        if !held.contains(&t) {
+                            held.push(t);
+                            ops.push(format!("ACreate {}", t));
+                        }
+                        ops.push(format!("ASend {} ({})%Z {}", t, n, way_of(*n) == 2));
+                    }
+                }
+                w.push(format!("({}, {})", coq_list(ops), coq_list(raw.clone())), format!("commanders created in on_start for targets {:?}, commands {:?}: command channel {:?}", at_start, cmds, raw));
                 if got != expected {
                     failures.push(format!("commanders created in on_start for targets {:?}, commands {:?}: forwarded {:?}, meant were {:?}", at_start, cmds, got, expected));
                 }
@@ -264,10 +287,11 @@ fn main() {
         }
     }
     std::fs::create_dir_all(&args.out).unwrap();
+    w.finish(&args.out, "cases").unwrap();
     let meta = J::obj(vec![
         ("evaluations", J::I(total as i128)),
         ("distinct_nontrivial", J::I(nontrivial as i128)),
-        ("rule", J::s("a real agent (derived lane model, lifecycle, AgentModel task) with a command lane: commanders for 0-4 of four target lanes are created in on_start, the others when first needed; 1-12 commands tell it to send their number to a target ad hoc, through the target's commander without overwriting, or with overwriting permitted; the harness reads the agent's command channel with the real RawCommandMessageDecoder and resolves it as the runtime does (Register binds an id to an address, Registered goes to the address bound to its id): what is forwarded must be, in order, each number to the lane it was meant for with its overwrite flag (real code only); non-trivial = commanders created both in on_start and later")),
+        ("rule", J::s("a real agent (derived lane model, lifecycle, AgentModel task) with a command lane: commanders for 0-4 of four target lanes are created in on_start, the others when first needed; 1-12 commands tell it to send their number to a target ad hoc, through the target's commander without overwriting, or with overwriting permitted; the harness reads the agent's command channel with the real RawCommandMessageDecoder and resolves it as the runtime does (Register binds an id to an address, Registered goes to the address bound to its id): what is forwarded must be, in order, each number to the lane it was meant for with its overwrite flag (direct oracle), the messages must be those of Model/Commanders.v (correspondence) and resolve to the intended deliveries there too (oracle); non-trivial = commanders created both in on_start and later")),
         ("structures", J::counts(&kinds)),
         ("samples", J::A(vec![])),
         ("direct_failures", J::A(failures.iter().take(40).map(|f| J::s(f.chars().take(600).collect::<String>())).collect())),
